@@ -952,12 +952,14 @@ ZOO_HOSTILE = (
     {(1, 2): 0}, {None: 1}, {1: "x", "1": "y"}, Opaque(), Opaque, _a_function,
     float("inf"), float("-inf"), float("nan"), 10 ** 400, -(10 ** 400), 1j, range(3),
     DATETIMES[0], DATES[0], b"\xff", "", [], {}, [[]], None, True, 0, -0.0,
+    {...: 1}, {"a": 1, ...: 2}, {float("nan"): 1, float("nan"): 2}, ..., {None: 1, "a": 2, (1,): 3}, [...], NotImplemented,
 )
 
 
 ZOO_HOSTILE_Q = (Decimal("1.5"), (1, 2), {1, 2}, bytearray(b"ab"), StrSub("ab"), IntSub(3), ListSub([1]),
                  DictSub({"a": 1}), UUID("6ba7b810-9dad-11d1-80b4-00c04fd430c8"), UUID(int=0), {(1, 2): 0},
-                 Opaque(), float("inf"), float("nan"), 10 ** 400, {1: "x", "1": "y"}, {None: 1, "a": 2, (1,): 3})
+                 Opaque(), float("inf"), float("nan"), 10 ** 400, {1: "x", "1": "y"}, {None: 1, "a": 2, (1,): 3},
+                 {...: 1}, {"a": 1, ...: 2}, {float("nan"): 1, float("nan"): 2}, ...)
 
 
 def _count_nodes(val):
@@ -1423,6 +1425,38 @@ def reset_singletons():
     for obj, snap in _PRISTINE:
         obj.__dict__.clear()
         obj.__dict__.update({k: (dict(v) if isinstance(v, dict) else v) for k, v in snap.items()})
+
+
+_MODULE_STATE = []
+for _name, _mod in list(sys.modules.items()):
+    if _name == "d42" or _name.startswith("d42."):
+        for _k, _v in list(_mod.__dict__.items()):
+            if isinstance(_v, (dict, list, set)) and not _k.startswith("__"):
+                _MODULE_STATE.append((_mod, _k, _v, type(_v)(_v)))
+
+
+def reset_module_state():
+    """Restore every module-level dict/list/set of the d42 package to its import-time contents, clear every functools
+    cache found there, and reset the visitor singletons.  Makes each explored path start from the pristine library
+    state, so that a counterexample caused by state a (mutated) library keeps between calls is self-contained."""
+    for mod, k, obj, snap in _MODULE_STATE:
+        if mod.__dict__.get(k) is not obj:
+            mod.__dict__[k] = obj
+        if isinstance(obj, dict):
+            obj.clear()
+            obj.update(snap)
+        elif isinstance(obj, list):
+            obj[:] = snap
+        else:
+            obj.clear()
+            obj.update(snap)
+    for name, mod in list(sys.modules.items()):
+        if name == "d42" or name.startswith("d42."):
+            for v in list(mod.__dict__.values()):
+                cc = getattr(v, "cache_clear", None)
+                if callable(cc):
+                    cc()
+    reset_singletons()
 
 
 def deep_fp(x, depth=0):
